@@ -404,51 +404,180 @@ Proof.
   - rnum. lra.
 Qed.
 
-(* ---- restrictive horizons: with 100 % penetrability everywhere the walk returns the potential depth -- *)
-Definition pens100 (p : list (Comp R)) : Prop := Forall (fun c => c_pen c = 100) p.
-Definition li_ok (e : LayerInfo R) : Prop := snd e = None \/ snd e = Some 100.
-
-Lemma layer_info_ok p k : pens100 p -> li_ok (layer_info p k).
+(* ---- numpy's sum of non-negative numbers is non-negative ---------------------------------------------- *)
+Lemma seq_add_nonneg l : forall acc, 0 <= acc -> Forall (Rle 0) l -> 0 <= seq_add acc l.
 Proof.
-  intros Hp. unfold layer_info, li_ok. cbn [snd].
-  induction Hp as [|c p Hc Hp IH]; cbn [filter]; [left; reflexivity|].
-  destruct (c_layer c =? k)%Z; [right; rewrite Hc; reflexivity | exact IH].
+  induction l as [|x l IH]; intros acc Ha Hl; cbn [seq_add]; [exact Ha|].
+  inversion Hl; subst. apply IH; [rnum; lra | assumption].
 Qed.
 
-Lemma layer_tab_ok p : pens100 p -> forall n k, Forall li_ok (layer_tab p k n).
-Proof. intros Hp. induction n; intros k; cbn [layer_tab]; constructor; [apply layer_info_ok; exact Hp | apply IHn]. Qed.
-
-Lemma rd_skip_ok zmin : forall rest zsoil cur, li_ok cur -> Forall li_ok rest ->
-  li_ok (snd (fst (rd_skip zmin zsoil cur rest))) /\ Forall li_ok (snd (rd_skip zmin zsoil cur rest)).
+Lemma np_block_nonneg : forall n l r0 r1 r2 r3 r4 r5 r6 r7, (length l <= n)%nat ->
+  0 <= r0 -> 0 <= r1 -> 0 <= r2 -> 0 <= r3 -> 0 <= r4 -> 0 <= r5 -> 0 <= r6 -> 0 <= r7 ->
+  Forall (Rle 0) l -> 0 <= np_block r0 r1 r2 r3 r4 r5 r6 r7 l.
 Proof.
-  induction rest as [|e r IH]; intros zsoil cur Hc Hr; cbn [rd_skip].
-  - split; [exact Hc | constructor].
-  - inversion Hr; subst. destruct (nleb _ _ _); [apply IH; assumption | split; assumption].
+  induction n as [|n IH]; intros l r0 r1 r2 r3 r4 r5 r6 r7 Hlen H0 H1 H2 H3 H4 H5 H6 H7 Hl.
+  - destruct l; [|simpl in Hlen; lia]. cbn [np_block seq_add]. rnum. lra.
+  - destruct l as [|a0 [|a1 [|a2 [|a3 [|a4 [|a5 [|a6 [|a7 l']]]]]]]]; cbn [np_block];
+      try (apply seq_add_nonneg; [rnum; lra | assumption]).
+    repeat match goal with H : Forall _ (_ :: _) |- _ => inversion H; clear H; subst end.
+    apply IH; try (rnum; lra); try assumption. simpl in Hlen. lia.
 Qed.
 
-Lemma rd_walk_100 : forall rest cur zradj zrrem dz zsoil out,
-  li_ok cur -> Forall li_ok rest -> zsoil = zradj + dz ->
-  rd_walk zradj zrrem dz zsoil cur rest = Some out -> out = zradj + zrrem.
+Lemma np_pairwise_nonneg : forall fuel l, Forall (Rle 0) l -> 0 <= np_pairwise fuel l.
 Proof.
-  induction rest as [|e r IH]; intros cur zradj zrrem dz zsoil out Hc Hr Hz H; cbn [rd_walk] in H;
-    destruct Hc as [Hc|Hc]; rewrite Hc in H; try discriminate.
-  - inversion H; subst. rnum. lra.
-  - inversion Hr; subst. destruct (_ || _).
-    + inversion H; subst. rnum. lra.
-    + eapply IH in H; [| assumption | assumption | reflexivity]. subst out. rnum. lra.
+  assert (B : forall l, Forall (Rle 0) l ->
+              0 <= match l with
+                   | a0 :: a1 :: a2 :: a3 :: a4 :: a5 :: a6 :: a7 :: l' => np_block a0 a1 a2 a3 a4 a5 a6 a7 l'
+                   | _ => nofZ num_ops 0 end).
+  { intros l Hl. destruct l as [|a0 [|a1 [|a2 [|a3 [|a4 [|a5 [|a6 [|a7 l']]]]]]]]; try (rnum; lra).
+    repeat match goal with H : Forall _ (_ :: _) |- _ => inversion H; clear H; subst end.
+    apply (np_block_nonneg (length l')); try assumption. lia. }
+  induction fuel as [|f IH]; intros l Hl; cbn [np_pairwise];
+    (destruct (Nat.ltb (length l) 8); [apply seq_add_nonneg; [rnum; lra | assumption]|]);
+    (destruct (Nat.leb (length l) 128); [apply B; assumption|]).
+  - rnum; lra.
+  - set (n2 := (Nat.div (length l) 2 - Nat.modulo (Nat.div (length l) 2) 8)%nat).
+    rewrite <- (firstn_skipn n2 l) in Hl. apply Forall_app in Hl. destruct Hl as [Ha Hb].
+    pose proof (IH _ Ha). pose proof (IH _ Hb). rnum. lra.
 Qed.
 
-Lemma rd_restrict_100 p zmin zr out : pens100 p -> rd_restrict p zmin zr = Some out -> out = zr.
+Lemma np_sum_nonneg l : Forall (Rle 0) l -> 0 <= np_sum l.
+Proof. intros H. unfold np_sum. pose proof (np_pairwise_nonneg (length l) l H). rnum. lra. Qed.
+
+(* ---- restrictive horizons --------------------------------------------------------------------------------
+   Profile hypothesis: every penetrability is a percentage.  (Layer thicknesses are non-negative by wf_prof.) *)
+Definition pen_ok (p : list (Comp R)) : Prop := Forall (fun c => 0 <= c_pen c <= 100) p.
+(* Zmin is given in whole centimetres — the code compares round(Zsoil, 2) with Zmin; every catalogue crop has 0.30 *)
+Definition zmin_cm (zmin : R) : Prop := exists n : Z, zmin = IZR n / 100.
+
+Definition li_ok (e : LayerInfo R) : Prop := 0 <= fst e /\ forall pen, snd e = Some pen -> 0 <= pen <= 100.
+
+Lemma layer_info_ok p k : wf_prof p -> pen_ok p -> li_ok (layer_info p k).
 Proof.
-  intros Hp. unfold rd_restrict.
-  pose proof (layer_tab_ok p Hp (nunique (map c_layer p)) 1%Z) as Ht.
+  intros Hw Hp. unfold layer_info, li_ok. cbn [fst snd]. split.
+  - apply np_sum_nonneg. apply Forall_map. apply Forall_forall. intros c Hc. apply filter_In in Hc. destruct Hc as [Hc _].
+    pose proof (wf_dz c (proj1 (Forall_forall _ _) Hw c Hc)). lra.
+  - intros pen. destruct (filter _ p) as [|c cs] eqn:E; [discriminate|]. intros H; inversion H; subst.
+    assert (Hc : In c (filter (fun c0 => (c_layer c0 =? k)%Z) p)) by (rewrite E; left; reflexivity).
+    apply filter_In in Hc. exact (proj1 (Forall_forall _ _) Hp c (proj1 Hc)).
+Qed.
+
+Lemma layer_tab_ok p : wf_prof p -> pen_ok p -> forall n k, Forall li_ok (layer_tab p k n).
+Proof. intros Hw Hp. induction n; intros k; cbn [layer_tab]; constructor; [apply layer_info_ok; assumption | apply IHn]. Qed.
+
+Lemma round2_gt_cm zmin x : zmin_cm zmin -> zmin < Rround 2 x -> zmin < x.
+Proof.
+  intros [n ->] H. unfold Rround in H. replace (pow10 2) with 100 in H by (unfold pow10; simpl; lra).
+  assert (Hlt : IZR n < IZR (ZnearestE (x * 100))).
+  { apply (Rmult_lt_compat_r 100) in H; [|lra]. unfold Rdiv in H. rewrite !Rmult_assoc, Rinv_l, !Rmult_1_r in H; lra. }
+  apply lt_IZR in Hlt. assert (Hle : (n + 1 <= ZnearestE (x * 100))%Z) by lia. apply IZR_le in Hle. rewrite plus_IZR in Hle.
+  pose proof (Znearest_half (fun z => negb (Z.even z)) (x * 100)) as Hh. apply Rabs_le_inv in Hh. lra.
+Qed.
+
+(* the skip loop keeps the layer table well-formed and stops either on the last layer or with Zsoil > Zmin *)
+Lemma rd_skip_ok zmin : zmin_cm zmin -> forall rest zsoil cur, li_ok cur -> Forall li_ok rest ->
+  let r := rd_skip zmin zsoil cur rest in
+  li_ok (snd (fst r)) /\ Forall li_ok (snd r) /\ (snd r = [] \/ zmin < fst (fst r)).
+Proof.
+  intros Hcm. induction rest as [|e r IH]; intros zsoil cur Hc Hr; cbn [rd_skip].
+  - cbn [fst snd]. split; [exact Hc | split; [constructor | left; reflexivity]].
+  - inversion Hr; subst. destruct (nleb num_ops _ zmin) eqn:E; [apply IH; assumption|].
+    cbn [fst snd]. split; [exact Hc | split; [exact Hr | right]].
+    apply leb_false_R in E. revert E. rnum. apply round2_gt_cm. exact Hcm.
+Qed.
+
+(* the walk: result between the top of the current layer and the unrestricted depth; monotone in the depth to place *)
+Lemma rd_walk_range : forall rest cur a r dz zs out,
+  li_ok cur -> Forall li_ok rest -> zs = a + dz -> (rest = [] \/ 0 <= dz) -> 0 <= r ->
+  rd_walk a r dz zs cur rest = Some out -> a <= out <= a + r.
+Proof.
+  induction rest as [|e rest IH]; intros cur a r dz zs out [Hc0 Hc] Hr Hz Hdz Hr0 H; cbn [rd_walk] in H;
+    destruct (snd cur) as [pen|]; try discriminate; specialize (Hc pen eq_refl); revert H; rnum;
+    set (k := pen / 100); assert (Hk : 0 <= k <= 1) by (unfold k; lra).
+  - intros H; inversion H; subst. split; nra.
+  - inversion Hr as [|? ? He Hrest]; subst. destruct Hdz as [Hdz|Hdz]; [discriminate|].
+    destruct (Reqb_spec pen 0) as [|Hne]; cbn [orb]; [intros H; inversion H; subst; split; nra|].
+    destruct (Rleb_spec (a + r * k) (a + dz)) as [|Hgt]; [intros H; inversion H; subst; split; nra|].
+    intros H. assert (Hk0 : 0 < k) by (unfold k; lra).
+    remember (dz / k) as q eqn:Eq. assert (Hq : q * k = dz) by (rewrite Eq; field; lra). clear Eq.
+    assert (Hq0 : 0 <= q) by nra. assert (Hqd : dz <= q) by nra. assert (Hrq : q < r) by nra.
+    eapply IH in H; [| exact He | exact Hrest | reflexivity | right; exact (proj1 He) | lra].
+    revert H. rnum. intros H. lra.
+Qed.
+
+Lemma rd_walk_mono : forall rest cur a r1 r2 dz zs o1 o2,
+  li_ok cur -> Forall li_ok rest -> zs = a + dz -> (rest = [] \/ 0 <= dz) -> 0 <= r1 -> r1 <= r2 ->
+  rd_walk a r1 dz zs cur rest = Some o1 -> rd_walk a r2 dz zs cur rest = Some o2 -> o1 <= o2.
+Proof.
+  induction rest as [|e rest IH]; intros cur a r1 r2 dz zs o1 o2 [Hc0 Hc] Hr Hz Hdz Hr0 Hr12 H1 H2;
+    cbn [rd_walk] in H1, H2; destruct (snd cur) as [pen|]; try discriminate; specialize (Hc pen eq_refl);
+    revert H1 H2; rnum; set (k := pen / 100); assert (Hk : 0 <= k <= 1) by (unfold k; lra).
+  - intros K1 K2; inversion K1; inversion K2; subst. nra.
+  - inversion Hr as [|? ? He Hrest]; subst. destruct Hdz as [Hdz|Hdz]; [discriminate|].
+    destruct (Reqb_spec pen 0) as [|Hne]; cbn [orb]; [intros K1 K2; inversion K1; inversion K2; subst; nra|].
+    assert (Hk0 : 0 < k) by (unfold k; lra).
+    remember (dz / k) as q eqn:Eq. assert (Hq : q * k = dz) by (rewrite Eq; field; lra). clear Eq.
+    destruct (Rleb_spec (a + r1 * k) (a + dz)) as [Hle1|Hgt1]; destruct (Rleb_spec (a + r2 * k) (a + dz)) as [Hle2|Hgt2];
+      intros K1 K2.
+    + inversion K1; inversion K2; subst. nra.
+    + inversion K1; subst. assert (Hrq : q < r2) by nra.
+      eapply rd_walk_range in K2; [| exact He | exact Hrest | reflexivity | right; exact (proj1 He) | lra]. lra.
+    + exfalso. nra.
+    + assert (Hrq : q < r1) by nra.
+      eapply (IH e (a + dz) (r1 - q) (r2 - q)); [exact He | exact Hrest | reflexivity | right; exact (proj1 He) | lra | lra | exact K1 | exact K2].
+Qed.
+
+(* _restricted_depth(Z) for Z >= Zmin:  Zmin <= restricted <= Z, monotone in Z *)
+Lemma rd_restrict_range p zmin z out :
+  wf_prof p -> pen_ok p -> zmin_cm zmin -> zmin <= z -> rd_restrict p zmin z = Some out -> zmin <= out <= z.
+Proof.
+  intros Hw Hp Hcm Hz. unfold rd_restrict.
+  pose proof (layer_tab_ok p Hw Hp (nunique (map c_layer p)) 1%Z) as Ht.
   destruct (layer_tab p 1 (nunique (map c_layer p))) as [|e r]; [discriminate|].
   inversion Ht; subst.
-  pose proof (rd_skip_ok zmin r (fst e) e ltac:(assumption) ltac:(assumption)) as [A B].
-  destruct (rd_skip zmin (fst e) e r) as [[zsoil cur] rest]. cbn [fst snd] in A, B.
-  intros H. eapply rd_walk_100 in H; [| exact A | exact B | rnum; lra]. subst out. rnum. lra.
+  pose proof (rd_skip_ok zmin Hcm r (fst e) e ltac:(assumption) ltac:(assumption)) as (A & B & C).
+  destruct (rd_skip zmin (fst e) e r) as [[zsoil cur] rest]. cbn [fst snd] in A, B, C.
+  intros H. eapply rd_walk_range in H; [| exact A | exact B | rnum; lra | | rnum; lra].
+  - revert H. rnum. intros; lra.
+  - destruct C as [C|C]; [left; exact C | right; rnum; lra].
 Qed.
 
+Lemma rd_restrict_mono p zmin z1 z2 o1 o2 :
+  wf_prof p -> pen_ok p -> zmin_cm zmin -> zmin <= z1 -> z1 <= z2 ->
+  rd_restrict p zmin z1 = Some o1 -> rd_restrict p zmin z2 = Some o2 -> o1 <= o2.
+Proof.
+  intros Hw Hp Hcm Hz H12. unfold rd_restrict.
+  pose proof (layer_tab_ok p Hw Hp (nunique (map c_layer p)) 1%Z) as Ht.
+  destruct (layer_tab p 1 (nunique (map c_layer p))) as [|e r]; [discriminate|].
+  inversion Ht; subst.
+  pose proof (rd_skip_ok zmin Hcm r (fst e) e ltac:(assumption) ltac:(assumption)) as (A & B & C).
+  destruct (rd_skip zmin (fst e) e r) as [[zsoil cur] rest]. cbn [fst snd] in A, B, C.
+  intros K1 K2. eapply (rd_walk_mono rest cur zmin (z1 - zmin) (z2 - zmin)); [exact A | exact B | | | | | exact K1 | exact K2];
+    try (rnum; lra).
+  destruct C as [C|C]; [left; exact C | right; rnum; lra].
+Qed.
+
+(* the guarded version used for yesterday's depth (identity at Zmin) *)
+Lemma rd_restricted_range p zmin z out :
+  wf_prof p -> pen_ok p -> zmin_cm zmin -> zmin <= z -> rd_restricted p zmin z = Some out -> zmin <= out <= z.
+Proof.
+  intros Hw Hp Hcm Hz. unfold rd_restricted. destruct (nltb num_ops zmin z).
+  - apply rd_restrict_range; assumption.
+  - intros H; inversion H; subst; lra.
+Qed.
+
+Lemma rd_restricted_mono p zmin z1 z2 o1 o2 :
+  wf_prof p -> pen_ok p -> zmin_cm zmin -> zmin <= z1 -> z1 <= z2 ->
+  rd_restricted p zmin z1 = Some o1 -> rd_restricted p zmin z2 = Some o2 -> o1 <= o2.
+Proof.
+  intros Hw Hp Hcm Hz H12. unfold rd_restricted.
+  destruct (nltb num_ops zmin z1) eqn:E1; destruct (nltb num_ops zmin z2) eqn:E2.
+  - apply rd_restrict_mono; assumption.
+  - apply ltb_true_R in E1. apply ltb_false_R in E2. lra.
+  - apply ltb_false_R in E1. intros H1 H2. inversion H1; subst.
+    apply rd_restrict_range in H2; try assumption; lra.
+  - intros H1 H2; inversion H1; inversion H2; subst; lra.
+Qed.
 (* ---- reductions of the day's expansion --------------------------------------------------------------- *)
 Lemma rd_stomatal_range c trr d :
   0 <= trr <= 1 -> 0 <= d -> 0 <= rd_stomatal c trr d <= d.
@@ -496,25 +625,37 @@ Proof.
   set (k := (exp (drel * rc_fshape_w1 c) - 1) / (exp (rc_fshape_w1 c) - 1)) in *. split; nra.
 Qed.
 
-(* the day's expansion lies between 0 and the growth of the potential depth *)
+(* the day's expansion lies between 0 and the growth of the RESTRICTED potential depth *)
 Lemma rd_dzr_range c p th zinit zrold zr trr cc ccns germ d :
-  rc_ok c -> wf_prof p -> pens100 p -> 0 <= trr <= 1 -> zrold <= zr ->
-  rd_dzr c p th zinit zrold zr trr cc ccns germ = Some d -> 0 <= d <= zr - zrold.
+  rc_ok c -> wf_prof p -> pen_ok p -> zmin_cm (rc_Zmin c) -> 0 <= trr <= 1 -> rc_Zmin c <= zrold -> zrold <= zr ->
+  rd_dzr c p th zinit zrold zr trr cc ccns germ = Some d ->
+  exists zo zn, rd_restricted p (rc_Zmin c) zrold = Some zo /\ rd_restricted p (rc_Zmin c) zr = Some zn /\ 0 <= d <= zn - zo.
 Proof.
-  intros Hc Hp Hpen Ht Hz. unfold rd_dzr.
+  intros Hc Hp Hpen Hcm Ht Hlo Hz. unfold rd_dzr.
   assert (H0 : forall d0, (if nltb num_ops (rc_Zmin c) zr
-                           then match rd_restrict p (rc_Zmin c) zr with Some zrout => Some (nsub num_ops zrout zrold) | None => None end
-                           else Some (nsub num_ops zr zrold)) = Some d0 -> d0 = zr - zrold).
-  { intros d0. destruct (nltb _ _ _).
-    - destruct (rd_restrict p (rc_Zmin c) zr) as [o|] eqn:E; [|discriminate].
-      apply rd_restrict_100 in E; [|exact Hpen]. subst o. intros H; inversion H; reflexivity.
-    - intros H; inversion H; reflexivity. }
+                           then match rd_restrict p (rc_Zmin c) zr with
+                                | Some zr1 => match rd_restricted p (rc_Zmin c) zrold with
+                                              | Some zo1 => Some (nsub num_ops zr1 zo1) | None => None end
+                                | None => None end
+                           else Some (nsub num_ops zr zrold)) = Some d0 ->
+            exists zo zn, rd_restricted p (rc_Zmin c) zrold = Some zo /\ rd_restricted p (rc_Zmin c) zr = Some zn /\
+                          d0 = zn - zo /\ zo <= zn).
+  { intros d0. unfold rd_restricted at 3. destruct (nltb num_ops (rc_Zmin c) zr) eqn:E.
+    - destruct (rd_restrict p (rc_Zmin c) zr) as [zr1|] eqn:E1; [|discriminate].
+      destruct (rd_restricted p (rc_Zmin c) zrold) as [zo1|] eqn:E2; [|discriminate].
+      intros H; inversion H; subst. exists zo1, zr1. repeat split; try reflexivity.
+      eapply (rd_restricted_mono p (rc_Zmin c) zrold zr); try eassumption.
+      unfold rd_restricted. rewrite E. exact E1.
+    - intros H; inversion H; subst. apply ltb_false_R in E.
+      assert (K : nltb num_ops (rc_Zmin c) zrold = false) by (rnum; apply Rltb_false; lra).
+      unfold rd_restricted. rewrite K.
+      exists zrold, zr. repeat split; try reflexivity. exact Hz. }
   destruct (if nltb num_ops (rc_Zmin c) zr then _ else _) as [d0|]; [|discriminate].
-  specialize (H0 d0 eq_refl). subst d0.
-  pose proof (rd_stomatal_range c trr (zr - zrold) Ht ltac:(lra)) as Hs.
+  destruct (H0 d0 eq_refl) as (zo & zn & Eo & En & -> & Hle). clear H0.
+  pose proof (rd_stomatal_range c trr (zn - zo) Ht ltac:(lra)) as Hs.
   destruct (rd_dry c p th zinit _) as [d1|] eqn:E; [|discriminate].
   apply rd_dry_range in E; [| assumption | assumption | lra].
-  intros H; inversion H; subst; clear H. rnum.
+  intros H; inversion H; subst; clear H. exists zo, zn. split; [exact Eo | split; [exact En|]]. rnum.
   destruct (_ && _); destruct germ; lra.
 Qed.
 
@@ -557,48 +698,56 @@ Proof.
   intros H; inversion H; subst. exists tadj, told, d. repeat split; try reflexivity. exact E3.
 Qed.
 
-(* ---- C05: rooting depth ---------------------------------------------------------------------------------
-   Hypotheses common to the theorems: valid crop and soil, NO restrictive horizon (every Penetrability = 100, see
-   root_range_refuted below for what happens otherwise), transpiration ratio in [0,1], non-negative degree days. *)
 
-(* 1. range.  The invariant is  Zmin <= z_root <= potential depth(yesterday's time)  — stronger than z_root <= Zmax,
-      which alone is not inductive (root_range_weak_refuted) — and it is re-established with today's time; on the first
-      day after planting nothing is assumed about z_root. *)
+(* ---- C05: rooting depth ---------------------------------------------------------------------------------
+   Hypotheses common to the theorems: valid crop (rc_ok) with Zmin in whole centimetres (zmin_cm), valid soil (wf_prof:
+   positive thicknesses ...) whose penetrabilities are percentages (pen_ok: 0 <= Penetrability <= 100; NO assumption on
+   the layer numbering — a broken numbering makes the code raise, i.e. the model returns None), transpiration ratio in
+   [0,1], non-negative degree days.  [rd_restricted p Zmin Z] is `_restricted_depth(Z)` (identity for Z <= Zmin). *)
+
+(* 1. range.  The invariant is  Zmin <= z_root <= restricted potential depth at yesterday's time — stronger than
+      z_root <= Zmax, which alone is not inductive (root_range_weak_refuted) — and it is re-established with today's time;
+      on the first day after planting nothing is assumed about z_root. *)
 Theorem root_range c p dap zroot dcd gddcum dgdd trr th cc ccns germ rcor tpot zgw gdd wt tadj told z' r' :
-  rc_ok c -> wf_prof p -> pens100 p -> 0 <= trr <= 1 -> 0 <= gdd ->
+  rc_ok c -> zmin_cm (rc_Zmin c) -> wf_prof p -> pen_ok p -> 0 <= trr <= 1 -> 0 <= gdd ->
   rd_times c dap dcd gddcum dgdd gdd = Some (tadj, told) ->
   root_development c p dap zroot dcd gddcum dgdd trr th cc ccns germ rcor tpot zgw gdd true wt = Some (z', r') ->
-  dap = 1%Z \/ rc_Zmin c <= zroot <= pot c told ->
-  rc_Zmin c <= z' <= pot c tadj /\ pot c tadj <= rc_Zmax c.
+  dap = 1%Z \/ (rc_Zmin c <= zroot /\ forall zo, rd_restricted p (rc_Zmin c) (pot c told) = Some zo -> zroot <= zo) ->
+  exists zn, rd_restricted p (rc_Zmin c) (pot c tadj) = Some zn /\
+             rc_Zmin c <= z' <= zn /\ zn <= pot c tadj <= rc_Zmax c.
 Proof.
-  intros Hc Hp Hpen Ht Hg Htimes H Hinv.
+  intros Hc Hcm Hp Hpen Ht Hg Htimes H Hinv.
   assert (Hf : rc_fshape_r c <> 0) by (pose proof (ok_fr c Hc); lra).
   apply root_development_inv in H; [|exact Hf].
   destruct H as (tadj' & told' & d & Et & Ed & ->). rewrite Htimes in Et. inversion Et; subst tadj' told'; clear Et.
   pose proof (rd_times_le _ _ _ _ _ _ _ _ Hg Htimes) as Hle.
   pose proof (pot_mono c told tadj Hc Hle) as Hm.
   pose proof (pot_range c told Hc) as Hr1. pose proof (pot_range c tadj Hc) as Hr2.
-  apply rd_dzr_range in Ed; try assumption.
+  apply rd_dzr_range in Ed; try assumption; [|lra].
+  destruct Ed as (zo & zn & Eo & En & Hd).
+  pose proof (rd_restricted_range _ _ _ _ Hp Hpen Hcm (proj1 Hr1) Eo) as Ho.
+  pose proof (rd_restricted_range _ _ _ _ Hp Hpen Hcm (proj1 Hr2) En) as Hn.
+  exists zn. split; [exact En|].
   set (zinit := if (dap =? 1)%Z then rc_Zmin c else zroot) in *.
-  assert (Hz : rc_Zmin c <= zinit <= pot c told).
-  { unfold zinit. destruct (Z.eqb_spec dap 1); [lra|]. destruct Hinv; [contradiction|assumption]. }
+  assert (Hz : rc_Zmin c <= zinit <= zo).
+  { unfold zinit. destruct (Z.eqb_spec dap 1); [lra|]. destruct Hinv as [|[A B]]; [contradiction|]. specialize (B zo Eo). lra. }
   pose proof (rd_table_range (rc_Zmin c) (zinit + d) zgw wt ltac:(lra)). rnum. lra.
 Qed.
 
 (* 2. monotone: the roots never shrink, except when a water table inside the root zone forces them up *)
 Theorem root_monotone c p dap zroot dcd gddcum dgdd trr th cc ccns germ rcor tpot zgw gdd wt z' r' :
-  rc_ok c -> wf_prof p -> pens100 p -> 0 <= trr <= 1 -> 0 <= gdd ->
+  rc_ok c -> zmin_cm (rc_Zmin c) -> wf_prof p -> pen_ok p -> 0 <= trr <= 1 -> 0 <= gdd ->
   (dap <> 1)%Z ->
   root_development c p dap zroot dcd gddcum dgdd trr th cc ccns germ rcor tpot zgw gdd true wt = Some (z', r') ->
   zroot <= z' \/ (wt = 1%Z /\ 0 < zgw /\ z' = Rmax zgw (rc_Zmin c)).
 Proof.
-  intros Hc Hp Hpen Ht Hg Hdap H.
+  intros Hc Hcm Hp Hpen Ht Hg Hdap H.
   assert (Hf : rc_fshape_r c <> 0) by (pose proof (ok_fr c Hc); lra).
   apply root_development_inv in H; [|exact Hf].
   destruct H as (tadj & told & d & Et & Ed & ->).
   pose proof (rd_times_le _ _ _ _ _ _ _ _ Hg Et) as Hle.
-  pose proof (pot_mono c told tadj Hc Hle) as Hm.
-  apply rd_dzr_range in Ed; try assumption.
+  pose proof (pot_mono c told tadj Hc Hle) as Hm. pose proof (pot_range c told Hc) as Hr1.
+  apply rd_dzr_range in Ed; try assumption; [|lra]. destruct Ed as (zo & zn & _ & _ & Hd).
   apply Z.eqb_neq in Hdap. rewrite Hdap in *. cbv iota in *.
   match goal with |- context [rd_table ?a ?b ?c ?d] =>
     destruct (rd_table_cases a b c d) as [E|(E1 & E2 & E3 & E)]; rewrite E end.
@@ -608,13 +757,13 @@ Qed.
 
 (* on the first day after planting the roots start from Zmin whatever z_root was *)
 Theorem root_first_day c p zroot dcd gddcum dgdd trr th cc ccns germ rcor tpot zgw gdd wt z' r' :
-  rc_ok c -> wf_prof p -> pens100 p -> 0 <= trr <= 1 -> 0 <= gdd ->
+  rc_ok c -> zmin_cm (rc_Zmin c) -> wf_prof p -> pen_ok p -> 0 <= trr <= 1 -> 0 <= gdd ->
   root_development c p 1 zroot dcd gddcum dgdd trr th cc ccns germ rcor tpot zgw gdd true wt = Some (z', r') ->
-  rc_Zmin c <= z'.
+  rc_Zmin c <= z' <= rc_Zmax c.
 Proof.
-  intros Hc Hp Hpen Ht Hg H.
+  intros Hc Hcm Hp Hpen Ht Hg H.
   destruct (rd_times c 1 dcd gddcum dgdd gdd) as [[tadj told]|] eqn:E.
-  - eapply root_range in H; try eassumption; [lra | left; reflexivity].
+  - eapply root_range in H; try eassumption; [|left; reflexivity]. destruct H as (zn & _ & A & B). lra.
   - unfold root_development in H. rewrite E in H. discriminate.
 Qed.
 
@@ -646,6 +795,8 @@ Definition ex_crop : RootCrop R :=
 
 Lemma ex_crop_ok : rc_ok ex_crop.
 Proof. constructor; unfold rd_zini; cbn; rnum; lra. Qed.
+Lemma ex_crop_cm : zmin_cm (rc_Zmin ex_crop).
+Proof. exists 30%Z. cbn. lra. Qed.
 
 (* a one-layer soil, 4 m deep, whose penetrability is [pen] % *)
 Definition pen_comp (pen : R) : Comp R :=
@@ -654,6 +805,8 @@ Definition pen_comp (pen : R) : Comp R :=
 
 Lemma pen_prof_wf pen : wf_prof [pen_comp pen].
 Proof. repeat constructor; cbn; lra. Qed.
+Lemma pen_prof_ok pen : 0 <= pen <= 100 -> pen_ok [pen_comp pen].
+Proof. intros H. unfold pen_ok. constructor; [cbn; lra | constructor]. Qed.
 
 (* evaluation lemmas for the witness runs *)
 Lemma ex_pot_max t : 93 <= t -> rd_potential ex_crop t = Some (15/10, false).
@@ -665,14 +818,16 @@ Qed.
 Lemma ex_restrict pen zr : rd_restrict [pen_comp pen] (3/10) zr = Some (3/10 + (zr - 3/10) * (pen / 100)).
 Proof. unfold rd_restrict. cbn. reflexivity. Qed.
 
-(* no stress, canopy alive, germinated, expansion not above 1 mm: the restricted expansion is taken as it is *)
+Lemma ex_restricted pen zr : 3/10 < zr -> rd_restricted [pen_comp pen] (3/10) zr = Some (3/10 + (zr - 3/10) * (pen / 100)).
+Proof. intros H. unfold rd_restricted. rnum. rewrite Rltb_true by exact H. apply ex_restrict. Qed.
+
+(* potential depth at Zmax yesterday and today, no stress, canopy alive, germinated: no expansion *)
 Lemma ex_dzr pen th zinit :
-  pen <= 100 ->
   rd_dzr ex_crop [pen_comp pen] th zinit (15/10) (15/10) 1 (8/10) (8/10) true
-  = Some (3/10 + (15/10 - 3/10) * (pen / 100) - 15/10).
+  = Some (3/10 + (15/10 - 3/10) * (pen / 100) - (3/10 + (15/10 - 3/10) * (pen / 100))).
 Proof.
-  intros Hpen. unfold rd_dzr. cbn [ex_crop rc_Zmin]. rnum. rewrite (Rltb_true (3/10) (15/10)) by lra.
-  rewrite ex_restrict. unfold rd_stomatal, rd_dry. rnum. rewrite (Rltb_false 1 (9999/10000)) by lra.
+  unfold rd_dzr. cbn [ex_crop rc_Zmin]. rnum. rewrite (Rltb_true (3/10) (15/10)) by lra.
+  rewrite ex_restrict, ex_restricted by lra. unfold rd_stomatal, rd_dry. rnum. rewrite (Rltb_false 1 (9999/10000)) by lra.
   rewrite Rltb_false by lra. rewrite (Rleb_false (8/10) 0) by lra. reflexivity.
 Qed.
 
@@ -684,18 +839,20 @@ Proof.
   rewrite andb_false_r. destruct (Rltb 0 tpot); discriminate.
 Qed.
 
-(* day 100 after planting (the potential depth reached Zmax on day 93), roots at [zroot], no stress *)
+(* day 100 after planting (the potential depth reached Zmax on day 93), roots at [zroot], no stress: the roots stay *)
 Lemma ex_run pen zroot zgw wt :
-  pen <= 100 -> zroot + (3/10 + (15/10 - 3/10) * (pen / 100) - 15/10) <> 0 ->
-  exists r', root_development ex_crop [pen_comp pen] 100 zroot 0 0 0 1 [22/100] (8/10) (8/10) true 1 3 zgw 0 true wt
-             = Some (rd_table (3/10) (zroot + (3/10 + (15/10 - 3/10) * (pen / 100) - 15/10)) zgw wt, r').
+  zroot <> 0 ->
+  exists z r', root_development ex_crop [pen_comp pen] 100 zroot 0 0 0 1 [22/100] (8/10) (8/10) true 1 3 zgw 0 true wt
+               = Some (rd_table (3/10) z zgw wt, r') /\ z = zroot.
 Proof.
-  intros Hpen Hz. unfold root_development.
+  intros Hz. unfold root_development.
   replace (rd_times ex_crop 100 0 0 0 0) with (Some (100, 99)) by (unfold rd_times; cbn; reflexivity).
   rewrite (ex_pot_max 99), (ex_pot_max 100) by lra. cbn [Z.eqb Pos.eqb].
-  rewrite ex_dzr by exact Hpen.
-  pose proof (ex_rcor _ (15/10) false 3 1 Hz) as Hr.
-  destruct (rd_rcor _ _ _ _ _ _) as [r|]; [|contradiction]. eexists; reflexivity.
+  rewrite ex_dzr.
+  set (d := 3/10 + (15/10 - 3/10) * (pen / 100) - (3/10 + (15/10 - 3/10) * (pen / 100))).
+  assert (Hd : d = 0) by (unfold d; lra).
+  pose proof (ex_rcor (zroot + d) (15/10) false 3 1 ltac:(lra)) as Hr.
+  destruct (rd_rcor _ _ _ _ _ _) as [r|]; [|contradiction]. eexists; eexists; split; [reflexivity|]. rnum. lra.
 Qed.
 
 Lemma ex_pot t : 93 <= t -> pot ex_crop t = 15/10.
@@ -704,57 +861,39 @@ Proof. intros H. symmetry. eapply rd_potential_eq; [cbn; lra | apply ex_pot_max;
 Lemma ex_times : rd_times ex_crop 100 0 0 0 0 = Some (100, 99).
 Proof. unfold rd_times; cbn; reflexivity. Qed.
 
-(* FINDING (C05).  With a restrictive horizon (here: one layer of 50 % penetrability) the statements 1 and 2 are false:
-   the code computes dZr = ZrOUT (today's depth AFTER the penetrability walk) − ZrOld (yesterday's potential depth
-   WITHOUT the walk), which is negative on every day, so the roots shrink day after day — below Zmin and below zero.
-   Wheat, day 100, z_root = 0.5 m, no stress, no water table  ->  z_root' = −0.1 m.
-   (Replayed on the package: Soil('custom') with a 50 % layer under Wheat drives z_root to −72 m within a season.) *)
-Theorem root_range_refuted :
-  exists c p dap zroot dcd gddcum dgdd trr th cc ccns germ rcor tpot zgw gdd wt tadj told z' r',
-    rc_ok c /\ wf_prof p /\ Forall (fun k => 0 < c_pen k <= 100) p /\ 0 <= trr <= 1 /\ 0 <= gdd /\
-    rd_times c dap dcd gddcum dgdd gdd = Some (tadj, told) /\
-    root_development c p dap zroot dcd gddcum dgdd trr th cc ccns germ rcor tpot zgw gdd true wt = Some (z', r') /\
-    rc_Zmin c <= zroot <= pot c told /\
-    z' < 0.
-Proof.
-  destruct (ex_run 50 (5/10) (-999) 0 ltac:(lra) ltac:(lra)) as [r' E].
-  exists ex_crop, [pen_comp 50], 100%Z, (5/10), 0%Z, 0, 0, 1, [22/100], (8/10), (8/10), true, 1, 3, (-999), 0, 0%Z, 100, 99.
-  eexists; exists r'. split; [exact ex_crop_ok | split; [apply pen_prof_wf | split; [|split; [lra | split; [lra | split; [exact ex_times | split; [exact E | split]]]]]]].
-  - repeat constructor; cbn; lra.
-  - rewrite ex_pot by lra. cbn. lra.
-  - unfold rd_table. cbn [Z.eqb andb]. lra.
-Qed.
-
-Theorem root_monotone_refuted :
-  exists c p dap zroot dcd gddcum dgdd trr th cc ccns germ rcor tpot zgw gdd z' r',
-    rc_ok c /\ wf_prof p /\ Forall (fun k => 0 < c_pen k <= 100) p /\ 0 <= trr <= 1 /\ 0 <= gdd /\ (dap <> 1)%Z /\
-    (* no water table *)
-    root_development c p dap zroot dcd gddcum dgdd trr th cc ccns germ rcor tpot zgw gdd true 0 = Some (z', r') /\
-    z' < zroot.
-Proof.
-  destruct (ex_run 50 (5/10) (-999) 0 ltac:(lra) ltac:(lra)) as [r' E].
-  exists ex_crop, [pen_comp 50], 100%Z, (5/10), 0%Z, 0, 0, 1, [22/100], (8/10), (8/10), true, 1, 3, (-999), 0.
-  eexists; exists r'. split; [exact ex_crop_ok | split; [apply pen_prof_wf | split; [|split; [lra | split; [lra | split; [lia | split; [exact E|]]]]]]].
-  - repeat constructor; cbn; lra.
-  - unfold rd_table. cbn [Z.eqb andb]. lra.
-Qed.
-
 (* the hypotheses of theorems 1–3 are satisfiable: Wheat on a fully penetrable soil, day 100, roots at 1 m, a water table
    at 0.8 m: the roots are lifted to 0.8 m *)
 Example root_theorems_example :
   exists z' r',
-    rc_ok ex_crop /\ wf_prof [pen_comp 100] /\ pens100 [pen_comp 100] /\ 0 <= 1 <= 1 /\ 0 <= 0 /\ (100 <> 1)%Z /\
-    rd_times ex_crop 100 0 0 0 0 = Some (100, 99) /\
+    rc_ok ex_crop /\ zmin_cm (rc_Zmin ex_crop) /\ wf_prof [pen_comp 100] /\ pen_ok [pen_comp 100] /\ 0 <= 1 <= 1 /\ 0 <= 0 /\
+    (100 <> 1)%Z /\ rd_times ex_crop 100 0 0 0 0 = Some (100, 99) /\
     root_development ex_crop [pen_comp 100] 100 1 0 0 0 1 [22/100] (8/10) (8/10) true 1 3 (8/10) 0 true 1 = Some (z', r') /\
-    rc_Zmin ex_crop <= 1 <= pot ex_crop 99 /\ 0 < 8/10 /\
-    z' = 8/10.
+    (rc_Zmin ex_crop <= 1 /\ forall zo, rd_restricted [pen_comp 100] (rc_Zmin ex_crop) (pot ex_crop 99) = Some zo -> 1 <= zo) /\
+    0 < 8/10 /\ z' = 8/10.
 Proof.
-  destruct (ex_run 100 1 (8/10) 1 ltac:(lra) ltac:(lra)) as [r' E].
+  destruct (ex_run 100 1 (8/10) 1 ltac:(lra)) as (z & r' & E & ->).
   eexists; exists r'.
-  split; [exact ex_crop_ok | split; [apply pen_prof_wf | split; [repeat constructor | split; [lra | split; [lra | split; [lia |
-  split; [exact ex_times | split; [exact E | split; [|split; [lra|]]]]]]]]]].
-  - rewrite ex_pot by lra. cbn. lra.
+  split; [exact ex_crop_ok | split; [exact ex_crop_cm | split; [apply pen_prof_wf | split; [apply pen_prof_ok; lra |
+  split; [lra | split; [lra | split; [lia | split; [exact ex_times | split; [exact E | split; [split|split; [lra|]]]]]]]]]]].
+  - cbn. lra.
+  - intros zo. rewrite ex_pot by lra. cbn [ex_crop rc_Zmin]. rewrite ex_restricted by lra. intros H; inversion H; subst. lra.
   - unfold rd_table. rnum. cbn [Z.eqb Pos.eqb andb]. rdecide. reflexivity.
+Qed.
+
+(* ... and with a restrictive horizon: the same day on a soil of 50 % penetrability, roots at the restricted potential depth
+   0.3 + (1.5 − 0.3)·0.5 = 0.9 m: they stay there (before the repair of the package they shrank by 0.6 m a day) *)
+Example root_restrictive_example :
+  exists z' r',
+    pen_ok [pen_comp 50] /\
+    root_development ex_crop [pen_comp 50] 100 (9/10) 0 0 0 1 [22/100] (8/10) (8/10) true 1 3 (-999) 0 true 0 = Some (z', r') /\
+    (rc_Zmin ex_crop <= 9/10 /\ forall zo, rd_restricted [pen_comp 50] (rc_Zmin ex_crop) (pot ex_crop 99) = Some zo -> 9/10 <= zo) /\
+    z' = 9/10.
+Proof.
+  destruct (ex_run 50 (9/10) (-999) 0 ltac:(lra)) as (z & r' & E & ->).
+  eexists; exists r'. split; [apply pen_prof_ok; lra | split; [exact E | split; [split|]]].
+  - cbn. lra.
+  - intros zo. rewrite ex_pot by lra. cbn [ex_crop rc_Zmin]. rewrite ex_restricted by lra. intros H; inversion H; subst. lra.
+  - unfold rd_table. cbn [Z.eqb andb]. reflexivity.
 Qed.
 
 (* FINDING (minor).  A water table exactly at the soil surface (z_gw = 0, e.g. a flooded field described through the
@@ -762,18 +901,18 @@ Qed.
    max(z_gw, Zmin) = Zmin. *)
 Theorem root_above_table_surface_refuted :
   exists c p dap zroot dcd gddcum dgdd trr th cc ccns germ rcor tpot gdd z' r',
-    rc_ok c /\ wf_prof p /\ pens100 p /\
+    rc_ok c /\ zmin_cm (rc_Zmin c) /\ wf_prof p /\ pen_ok p /\
     root_development c p dap zroot dcd gddcum dgdd trr th cc ccns germ rcor tpot 0 gdd true 1 = Some (z', r') /\
     Rmax 0 (rc_Zmin c) < z'.
 Proof.
-  destruct (ex_run 100 1 0 1 ltac:(lra) ltac:(lra)) as [r' E].
+  destruct (ex_run 100 1 0 1 ltac:(lra)) as (z & r' & E & ->).
   exists ex_crop, [pen_comp 100], 100%Z, 1, 0%Z, 0, 0, 1, [22/100], (8/10), (8/10), true, 1, 3, 0.
-  eexists; exists r'. split; [exact ex_crop_ok | split; [apply pen_prof_wf | split; [repeat constructor | split; [exact E|]]]].
+  eexists; exists r'. split; [exact ex_crop_ok | split; [exact ex_crop_cm | split; [apply pen_prof_wf | split; [apply pen_prof_ok; lra | split; [exact E|]]]]].
   unfold rd_table. rnum. cbn [Z.eqb Pos.eqb andb]. rewrite (Rltb_false 0 0) by lra. cbn [ex_crop rc_Zmin].
   rewrite Rmax_right by lra. lra.
 Qed.
 
-(* ---- why the invariant of theorem 1 is  z_root <= potential depth  and not just  z_root <= Zmax ------------- *)
+(* ---- why the invariant of theorem 1 is  z_root <= (restricted) potential depth  and not just  z_root <= Zmax ---- *)
 Lemma ex_t0_le : IZR (rd_t0 ex_crop) <= 7.
 Proof.
   unfold rd_t0. cbn [ex_crop rc_Emergence]. rnum.
@@ -802,35 +941,37 @@ Proof.
 Qed.
 
 Lemma ex_dzr_grow zold zinit :
-  3/10 <= zold -> 3/10 <= zinit <= 15/10 ->
-  rd_dzr ex_crop [pen_comp 100] [22/100] zinit zold (15/10) 1 (8/10) (8/10) true
-  = Some (3/10 + (15/10 - 3/10) * (100 / 100) - zold).
+  3/10 <= zold <= 15/10 -> 3/10 <= zinit <= 15/10 ->
+  exists d, rd_dzr ex_crop [pen_comp 100] [22/100] zinit zold (15/10) 1 (8/10) (8/10) true = Some d /\ d = 15/10 - zold.
 Proof.
   intros Ho Hi. unfold rd_dzr. cbn [ex_crop rc_Zmin]. rnum. rewrite (Rltb_true (3/10) (15/10)) by lra.
-  rewrite ex_restrict. unfold rd_stomatal. rnum. rewrite (Rltb_false 1 (9999/10000)) by lra.
-  rewrite ex_dry by lra. rewrite (Rleb_false (8/10) 0) by lra. reflexivity.
+  rewrite ex_restrict. unfold rd_restricted. rnum.
+  destruct (Rltb_spec (3/10) zold); [rewrite ex_restrict|];
+    unfold rd_stomatal; rnum; rewrite (Rltb_false 1 (9999/10000)) by lra;
+    rewrite ex_dry by lra; rewrite (Rleb_false (8/10) 0) by lra; cbn [andb]; eexists; (split; [reflexivity|lra]).
 Qed.
 
 (* z_root = Zmax on the day the potential depth reaches Zmax (which cannot happen along a run, theorem 1): the roots
    grow past Zmax *)
 Theorem root_range_weak_refuted :
   exists c p dap zroot dcd gddcum dgdd trr th cc ccns germ rcor tpot zgw gdd wt z' r',
-    rc_ok c /\ wf_prof p /\ pens100 p /\ 0 <= trr <= 1 /\ 0 <= gdd /\
+    rc_ok c /\ zmin_cm (rc_Zmin c) /\ wf_prof p /\ pen_ok p /\ 0 <= trr <= 1 /\ 0 <= gdd /\
     root_development c p dap zroot dcd gddcum dgdd trr th cc ccns germ rcor tpot zgw gdd true wt = Some (z', r') /\
     rc_Zmin c <= zroot <= rc_Zmax c /\
     rc_Zmax c < z'.
 Proof.
   pose proof ex_pot_92 as [Hlo Hhi].
   destruct (rd_potential_val ex_crop 92 ltac:(cbn; lra)) as [b E92].
-  set (z := 15/10 + (3/10 + (15/10 - 3/10) * (100/100) - pot ex_crop 92)).
+  destruct (ex_dzr_grow (pot ex_crop 92) (15/10) ltac:(lra) ltac:(lra)) as (d & Ed & Hd).
+  set (z := 15/10 + d).
   pose proof (ex_rcor z (15/10) false 3 1 ltac:(unfold z; lra)) as Hr.
   destruct (rd_rcor ex_crop z (15/10) false 3 1) as [r|] eqn:Er; [|contradiction].
   exists ex_crop, [pen_comp 100], 93%Z, (15/10), 0%Z, 0, 0, 1, [22/100], (8/10), (8/10), true, 1, 3, (-999), 0, 0%Z, z, r.
-  split; [exact ex_crop_ok | split; [apply pen_prof_wf | split; [repeat constructor | split; [lra | split; [lra | split; [|split]]]]]].
+  split; [exact ex_crop_ok | split; [exact ex_crop_cm | split; [apply pen_prof_wf | split; [apply pen_prof_ok; lra | split; [lra | split; [lra | split; [|split]]]]]]].
   - unfold root_development.
     replace (rd_times ex_crop 93 0 0 0 0) with (Some (93, 92)) by (unfold rd_times; cbn; reflexivity).
     rewrite E92, (ex_pot_max 93) by lra. cbn [Z.eqb Pos.eqb].
-    rewrite ex_dzr_grow by (cbn; lra). fold z. rnum. fold z. rewrite Er.
+    rewrite Ed. rnum. fold z. rewrite Er.
     unfold rd_table. cbn [Z.eqb andb]. reflexivity.
   - cbn. lra.
   - cbn [ex_crop rc_Zmax]. unfold z. lra.
